@@ -302,6 +302,14 @@ def main(argv=None):
                 print(f"VIOLATION property={prop} replay={path}")
                 print(f"    kind={v['kind']} detail={str(v['detail'])[:400]}")
                 shown += 1
+        with open(os.path.join(rdir, '_last_run_violations.json'), 'w') as f:
+            json.dump([{'kind': v['kind'], 'detail': v['detail'],
+                        'case': v['case'],
+                        'extra': {k: v[k] for k in v
+                                  if k not in ('kind', 'case', 'detail',
+                                               'traceback')}}
+                       for v in real], f, indent=1, ensure_ascii=False,
+                      default=repr)
         print(f"[{prop}] {agg['n_violations']} violating observation(s) "
               f"in total, {len(real)} kept, kinds: "
               f"{ {k: len(v) for k, v in by_kind.items()} }")
